@@ -122,7 +122,7 @@ def run(c):
     if not os.path.exists(os.path.join(BIN, "rtenc")):
         return
     rc, so, se = sh([os.path.join(BIN, "rtenc"), "gen", "-seed", str(c.seed), "-tier", c.tier])
-    ops = corpus() + so.splitlines()
+    ops = c.corpus() + so.splitlines()
     impl_cmd = [os.path.join(BIN, "rtenc"), "run"]
     if ok_model:
         impl, model, dis = c.correspondence("content negotiation", ops, impl_cmd, [os.path.join(LEAN, ".lake/build/bin/drv_enc")])
